@@ -132,7 +132,8 @@ def run(pid, tier, seed, replay):
         "states": max(1, dist), "transitions": max(1, gen), "traces_validated_against_impl": judged, "samples": samples,
         "evaluations": judged, "distinct_nontrivial": sum(v for k, v in stats_all.items() if k.endswith(".ops")),
         "rule": "gate schedules = every complete behaviour of the split-shape model for the listed scenarios (all interleavings x fault positions); "
-                "fault histories and concurrent histories are seeded; non-trivial = operations issued",
+                "fault histories and concurrent histories are seeded; system stage: every behaviour TLC reaches on McrewSystem.tla within the depth bound "
+                "(a seeded sample in quick) replayed on the real Service with Process calls and timer goroutines gated, plus seeded random runs; non-trivial = operations issued",
         "judge_stats": stats_all, "exhaustive": False,
         "unrealisable_schedules": stats_all.get("schedules.histories", 0) - stats_all.get("schedules.realised", 0),
         "known_findings_hit": {k: v["count"] for k, v in rep.known.items()},
